@@ -46,10 +46,11 @@ class CommRun(lifecycle.Run):
 
     def _construct(self, cls, loop):
         self.base = comm.RmqShaped()
+        self.base.keyword_delivery = bool(self.case.get('kwdeliver'))
         for idx, kind in (self.case.get('bfail') or {}).items():
             self.base.fail_broadcast[int(idx)] = TOLERATED[kind]()
         self.announced = []
-        self.base.add_broadcast_subscriber(lambda c, body, sender, subject, cid: self.announced.append([sender, subject]))
+        self.base.add_broadcast_subscriber(lambda c, body, sender, subject, correlation_id: self.announced.append([sender, subject]))
         communicator = communications.LoopCommunicator(self.base, loop) if self.case.get('wrap') else self.base
         self.ctl = pc.RemoteProcessThreadController(self.base)
         self.handler_calls = []
@@ -203,6 +204,10 @@ def gen_cases(tier, seed):
             plist += k2
             # the sender drops the reply future as soon as the message is delivered
             plist += [[{'at': s, 'act': list(m) + ['drop-reply']}] for s in range(0, n + 2) for m in MSGS if m[0] == 'rpc' and m[1] != 'status']
+            # the communicator hands broadcasts over by keyword (as kiwipy.LocalCommunicator does) instead of positionally
+            for plan in [[]] + [[{'at': s, 'act': m}] for s in range(0, n + 2) for m in MSGS if m[0] == 'bcast']:
+                yield {'kind': 'twin', 'name': name, 'program': prog, 'plan': [dict(e, act=list(e['act'])) for e in plan], 'wrap': wrap,
+                       'drain': True, 'listener': False, 'kwdeliver': True}
             for i, plan in enumerate(plist):
                 yield {'kind': 'twin', 'name': name, 'program': prog, 'plan': [dict(e, act=list(e['act'])) for e in plan], 'wrap': wrap,
                        'drain': True, 'listener': False}
